@@ -770,6 +770,9 @@ type SliceOpts struct {
 	Depth       int
 	// NoMemory: a load is a leaf; do not continue at the stores that may have written the loaded location.
 	NoMemory bool
+	// FieldSensitive: a read of field f of a local struct (Alloc) continues only at the stores to that same field,
+	// not at the whole struct (so sibling fields of a composite literal do not taint each other).
+	FieldSensitive bool
 	// Params: when reaching a parameter of a callee entered through IntoCallees, continue at the actual argument.
 }
 
@@ -816,6 +819,15 @@ func (s *Slice) walk(v ssa.Value, o SliceOpts, depth int, cc *callCtx) {
 	case *ssa.Field:
 		s.walk(x.X, o, depth, cc)
 	case *ssa.FieldAddr:
+		if _, isAlloc := x.X.(*ssa.Alloc); isAlloc && o.FieldSensitive {
+			for _, st := range storesTo(x) {
+				s.walk(st.Val, o, depth, cc)
+			}
+			for _, st := range fieldStores(x) {
+				s.walk(st.Val, o, depth, cc)
+			}
+			return
+		}
 		s.walk(x.X, o, depth, cc)
 	case *ssa.Index:
 		s.walk(x.X, o, depth, cc)
